@@ -373,6 +373,7 @@ func (x *Exec) loopHead(fr *frame, li *loopInfo, st *State) {
 		}
 		st.cells[k] = nv
 	}
+	x.havocCallCounters(fr, li, st)
 	li.modKeys = m
 	// automatic frame invariants: objects that existed before the loop and are not
 	// written through... (candidates; filtered by Houdini)
